@@ -763,8 +763,12 @@ class Probability(Expression):
         return Probability(distribution)
 
     def _get_key(self):  # type:ignore
-        # TODO incorporate more information from children and parents
-        return 0, self.children[0].name
+        return (
+            0,
+            self.children[0].name,
+            tuple(_variable_total_key(v) for v in self.children),
+            tuple(_variable_total_key(v) for v in self.parents),
+        )
 
     def to_text(self) -> str:
         """Output this probability in the internal string format."""
@@ -1205,7 +1209,8 @@ class Sum(Expression):
         return self
 
     def _get_key(self):  # type:ignore
-        return 1, *self.expression._get_key()  # type:ignore
+        ranges = tuple(sorted(_variable_total_key(v) for v in self.ranges))
+        return 1, self.expression._get_key(), ranges
 
     def _get_sorted_ranges(self) -> Sequence[Variable]:
         return sorted(self.ranges, key=attrgetter("name"))
@@ -1521,7 +1526,13 @@ class QFactor(Expression):
         return functools.partial(cls.safe, codomain=codomain)
 
     def _get_key(self):  # type:ignore
-        return -5, min(v.name for v in self.domain), min(v.name for v in self.codomain)
+        return (
+            -5,
+            min(v.name for v in self.domain),
+            min(v.name for v in self.codomain),
+            tuple(sorted(_variable_total_key(v) for v in self.domain)),
+            tuple(sorted(_variable_total_key(v) for v in self.codomain)),
+        )
 
     def _sorted_codomain(self) -> list[Variable]:
         return sorted(self.codomain, key=attrgetter("name"))
@@ -1586,6 +1597,19 @@ def _variable_sort_key(variable: Variable) -> tuple[str, str]:
         )
     else:
         return variable.name, ""
+
+
+def _variable_total_key(variable: Variable) -> tuple[str, int, bool, tuple[tuple[str, bool], ...]]:
+    """Get a key that is equal for two variables only if they are equal, so sorting is deterministic."""
+    interventions = (
+        variable.interventions if isinstance(variable, CounterfactualVariable) else frozenset()
+    )
+    return (
+        variable.name,
+        -1 if variable.star is None else int(variable.star),
+        isinstance(variable, Intervention),
+        tuple((i.name, bool(i.star)) for i in _sort_interventions(interventions)),
+    )
 
 
 def _sorted_variables(variables: Iterable[Variable]) -> tuple[Variable, ...]:
@@ -1693,7 +1717,7 @@ class PopulationProbability(Probability):
         return PopulationProbability(population=self.population, distribution=distribution)
 
     def _get_key(self):  # type:ignore
-        return -1, self.population, self.children[0].name
+        return -1, _variable_total_key(self.population), *super()._get_key()[1:]
 
     def to_y0(self) -> str:
         """Output this probability instance as y0 internal DSL code."""
